@@ -394,7 +394,7 @@ def run_check(prop, tier, seed):
             searched = True
             sdir = outdir + "-search"
             for k in range(prop.get("search_rounds", 2)):
-                rc2, _, rep2, _ = run_harness(prop, "thorough", seed + 7919 * (k + 1), sdir, log, budget=prop.get("search_budget", 3))
+                rc2, _, rep2, _ = run_harness(prop, prop.get("search_tier", "quick"), seed + 7919 * (k + 1), sdir, log, budget=prop.get("search_budget", 3))
                 if rep2 and rep2.get("monitor_failures"):
                     mon = rep2["monitor_failures"]
                     break
